@@ -194,7 +194,7 @@ func (h *Hub) Run() {
 				delete(h.connections, conn)
 				h.connMu.Unlock()
 
-				close(conn.send)
+				conn.closeSend()
 				h.roomManager.RemoveConnectionFromAllRooms(conn)
 				h.metrics.DecrementConnections()
 				h.metrics.UnregisterConnection(conn.ID)
@@ -241,10 +241,8 @@ func (h *Hub) Run() {
 		case message := <-h.broadcast:
 			h.connMu.Lock()
 			for conn := range h.connections {
-				select {
-				case conn.send <- message:
-				default:
-					close(conn.send)
+				if !conn.trySend(message) {
+					conn.closeSend()
 					delete(h.connections, conn)
 					h.roomManager.RemoveConnectionFromAllRooms(conn)
 				}
